@@ -16,6 +16,7 @@ ASSUMPTIONS = [
 ]
 SPEC = {
     'quick': [('K21', 'lend', 4),
+              ('K37', 'lend', 3),
               ('K31', 'rb', 4),
               ('K25', 'lend', 3),
               ('K13', 'lend', 4),
